@@ -39,6 +39,32 @@ def _wrapper(e):
     return "direct" if not names else names[0]
 
 
+def _arm_locals(body):
+    """`let x = <init>;` statements of an arm's block (single identifier patterns), in order: name -> init.
+    `let expr = f(expr); Core::Not { expr }` is the same construction as `Core::Not { expr: f(expr) }`."""
+    out = {}
+    e = body
+    for _ in range(3):
+        if e is not None and e.get("k") == "block":
+            for st in e["stmts"]:
+                if st.get("k") == "local" and st.get("init") is not None and st["pat"].get("k") == "pident" and st.get("else") is None:
+                    out.setdefault(st["pat"]["name"], st["init"])
+            e = tail_expr(e)
+        else:
+            break
+    return out
+
+
+def _through_locals(fe, locs, depth=0):
+    """a field initialiser that is just the name of an arm-local `let` stands for that local's initialiser"""
+    e = strip(fe)
+    if depth < 3 and e.get("k") == "path" and e["p"] in locs:
+        init = locs[e["p"]]
+        rest = {k: v for k, v in locs.items() if k != e["p"]}   # inside its own initialiser the name means the outer binding
+        return _through_locals(init, rest, depth + 1)
+    return fe
+
+
 def struct_arms(match_node, src_prefix, dst_prefix):
     """rows for every arm alternative `Src::X { a, b } [if g] => Dst::Y { p: f(a), q: g(b) }`; arms with another shape get
     target None (delegation to a helper)"""
@@ -63,7 +89,9 @@ def struct_arms(match_node, src_prefix, dst_prefix):
             row = {"src": v, "guard": src(a["guard"]) if a.get("guard") else None, "dst": None, "fields": {}, "arm": a, "bound": bound}
             if st is not None and st["p"].split("::")[0] == dst_prefix and len(st["p"].split("::")) == 2:
                 row["dst"] = st["p"].split("::")[1]
+                locs = _arm_locals(a["body"])
                 for fname, fe in st["fields"]:
+                    fe = _through_locals(fe, locs)
                     used = sorted({bound[i] for i in idents_in(fe) if i in bound})
                     row["fields"][fname] = (used, _wrapper(fe))
             elif a["body"].get("k") == "path" and a["body"]["p"].split("::")[0] == dst_prefix:
